@@ -154,6 +154,11 @@ def run(ck):
         ck.ob("DEFUSE", f.path, "unblinds-with-r", ("arg", 2) in o and any(a[0] == "call" and a[1].endswith("minus_point") for a in o),
               "the second component has h^r removed (minus_point) using the retrieval randomness", f.loc())
 
+    nz = zip_length_sweep(ck, c, re.compile(r"concordium_base::(ps_sig|aggregate_sig|ecvrf)"), re.compile(r"(verify|check)[a-z_0-9]*(::\{closure#\d+\})*$"))
+    ck.floor("CMP", "key/message zips in signature verification", nz, 1)
+
+    enf_module_sweep(ck, crate("rs", CB), re.compile(r"concordium_base::(aggregate_sig|ecvrf|ps_sig|eddsa_ed25519)::"), 1, "signature primitives")
+
     # ---- ed25519 dlog
     D = CB + "::eddsa_ed25519::dlog_ed25519::"
     v = getfn(ck, "rs", CB, D + "verify_dlog_ed25519")
